@@ -369,8 +369,25 @@ pub fn run(ctx: &Ctx) -> (Stats, Spec) {
     ] {
         check_fix_text(&mut st, t, "readme-and-scoping");
     }
+    // LONG chains: the iteration walks through the assignments one per round (2^n rounds over n
+    // variables — far more than the number of variables or names of the formula)
+    for n in ctx.tier.pick(vec![3usize, 4], vec![2, 3, 4, 5]) {
+        let names: Vec<String> = (0..n).map(|i| format!("v{}", i)).collect();
+        let minterm = |k: usize| -> String { format!("({})", (0..n).map(|i| if (k >> i) & 1 == 1 { names[i].clone() } else { format!("-{}", names[i]) }).collect::<Vec<_>>().join(" & ")) };
+        let all = names.join(", ");
+        let steps: Vec<String> = (1..(1usize << n)).map(|k| format!("({} & exists {} # ({} & X))", minterm(k), all, minterm(k - 1))).collect();
+        let lfp = format!("lfp X # {} | {}", minterm(0), steps.join(" | "));
+        // dual: start from true, remove one assignment per round
+        let dsteps: Vec<String> = (1..(1usize << n)).map(|k| format!("(-{} | forall {} # (-{} | X))", minterm(k), all, minterm(k - 1))).collect();
+        let gfp = format!("gfp X # -{} & {}", minterm(0), dsteps.join(" & "));
+        for t in [lfp.clone(), gfp.clone(), lfp.replacen("lfp", "mu", 1), gfp.replacen("gfp", "nu", 1)] {
+            if check_fix_text(&mut st, &t, "long-chain") {
+                st.bump("long_chain_fixed_points");
+            }
+        }
+    }
     let spec = Spec {
-        rule: "bodies from a polarity-tracking generator (X under and/or/ite branches/quantifiers/at-least counting/left list of >=/even negation; nested and mixed lfp/gfp up to depth 3; inner binders and quantifiers reusing the outer name; aliases mu/nu), every small tree as body, README identities. For each: ALL functions over the other names (<= 3 names: 256 candidates; 4 names: 4096 sampled) are enumerated as competing (pre/post-)fixed points; the generated body's monotonicity is verified on all comparable pairs. API: fp(a, t) with random table-defined maps on the 16 functions of two variables whose orbit ends in a self-loop; the closure counts its applications and calls back into the environment; a quarter of the calls run in an environment whose symbol type has a constant Hash (every pair of same-shape diagrams collides), so that `mapped to itself` cannot be confused with `same hash`. distinct = text resp. (map, start); non-trivial = X occurs free, T depends on X and T has >= 2 fixed points.".into(),
+        rule: "bodies from a polarity-tracking generator (X under and/or/ite branches/quantifiers/at-least counting/left list of >=/even negation; nested and mixed lfp/gfp up to depth 3; inner binders and quantifiers reusing the outer name; aliases mu/nu), every small tree as body, README identities, LONG chains (the fixed point of a walk through all 2^n assignments of 3-4 [quick] / 2-5 [thorough] variables, one per round, and its dual). For each: ALL functions over the other names (<= 3 names: 256 candidates; 4 names: 4096 sampled) are enumerated as competing (pre/post-)fixed points; the generated body's monotonicity is verified on all comparable pairs. API: fp(a, t) with random table-defined maps on the 16 functions of two variables whose orbit ends in a self-loop; the closure counts its applications and calls back into the environment; a quarter of the calls run in an environment whose symbol type has a constant Hash (every pair of same-shape diagrams collides), so that `mapped to itself` cannot be confused with `same hash`. distinct = text resp. (map, start); non-trivial = X occurs free, T depends on X and T has >= 2 fixed points.".into(),
         assumptions: vec![
             "non-monotone or non-convergent bodies are never handed to the engine (it may legitimately loop; the README says so)".into(),
             "'evaluation terminates' is decided as: total fixed-point iterations <= 4 x the reference's count + 64 (a monotone chain cannot be longer than the lattice height)".into(),
@@ -382,6 +399,7 @@ pub fn run(ctx: &Ctx) -> (Stats, Spec) {
             ("quantifier_shadows_fixed_point_name".into(), 20, "shadowing by a quantifier never exercised".into()),
             ("inner_binder_reuses_outer_name".into(), 20, "shadowing by an inner fixed point never exercised".into()),
             ("fp_api_calls".into(), 1_000, "fp API never exercised".into()),
+            ("long_chain_fixed_points".into(), 4, "long iteration chains never exercised".into()),
             ("fp_api_calls_weak_hash_symbols".into(), 300, "fp over colliding hashes never exercised".into()),
         ],
     };
